@@ -13,16 +13,30 @@ family cannot decide.  Decided necessary conditions (DESIGN.md §2 C12):
             the first (`-` for every subtracted term); nones_are_zeros is `category != METER` or the
             constant that has for the loop's component kind; grid power takes every grid successor of
             the three admissible categories.
+
+How the rules read the code (so that behaviour-preserving rewrites do not matter):
+  * predicates are compared as *values*: the function's symbolic return expression (locals
+    substituted, early returns / if-else / ternaries folded, private helpers expanded, parameters
+    numbered `%1..`, the component graph spelt `GRAPH`) in a canonical boolean form (flattened,
+    De Morgan, `all`/`any` as quantifiers over an alpha-normalised variable) — see _c12_util;
+  * roles are bound by dataflow: "the `condition` argument of the graph search in this generator",
+    "the set the `-` loops range over", "the popped single predecessor", "the enumerate index";
+    only public / anchored callee names, attribute names and parameter *positions* are used;
+  * control-flow obligations (per loop iteration, per dfs call) are path rules on the CFG: which
+    nodes must / must not be passed after the edge on which a canonical fact is established.
 """
 from __future__ import annotations
 
 import ast
-from typing import Any
+from typing import Any, Callable
 
 from ..engine.cfg import CFG
+from ..engine.normalize import inline_helpers
 from ..engine.report import AnalysisError, Run
-from ..engine.resolver import FuncInfo, Program, body_walk, walk_no_nested
-from ..engine.util import canon, find_calls, method_call, nodes_with_call, u
+from ..engine.resolver import FuncInfo, Program, parent_map, walk_no_nested
+from ..engine.util import method_call, node_calls, node_writes, nodes_with_call, reaching_defs
+from ._c12_util import (Folder, alias, bcanon, call_args, deref, edges_establishing, normal,
+                        path_avoiding_edges, pmap, rename, resolve_callable, single_defs, txt)
 
 CG = "microgrid.component_graph:_MicrogridComponentGraph"
 GEN = "timeseries.formula_engine._formula_generators"
@@ -30,13 +44,122 @@ KINDS = {"pv": "is_pv_inverter", "battery": "is_battery_inverter", "ev_charger":
 PRODUCER_KINDS = {"pv", "chp"}
 POOL_KINDS = {"battery", "ev_charger"}  # generators take component ids from their pools (frozen table)
 
+# every way the generators spell "the component graph"; inside the graph class it is `self`
+GRAPH_TEXTS = ("connection_manager.get().component_graph",)
+# callees the rules bind to by name (never expanded into their callers)
+KEEP_CALLEES = {"_get_grid_component_successors", "_get_grid_component", "_get_fallback_formulas", "_get_builder",
+                "_get_chp_meters"}
+METER = "ComponentCategory.METER"
+
+
+# ------------------------------------------------------------------------------------------------
+# shared machinery: every rule reads *values* (locals substituted, private helpers expanded, keyword
+# arguments put in parameter order, graph aliases unified), never local names or statement positions
+class Ctx:
+    def __init__(self, prog: Program) -> None:
+        self.prog = prog
+        self.folder = Folder(prog, keep=KEEP_CALLEES)
+        fg = prog.cls(f"{GEN}._formula_generator:FormulaGenerator")
+        cons = prog.cls(f"{GEN}._consumer_power_formula:ConsumerPowerFormula")
+        dfs = prog.func(f"{CG}.dfs")
+        self.dfs_params = dfs.params[1:]
+        if len(self.dfs_params) != 3:
+            raise AnalysisError("dfs does not take (current_node, visited, condition)")
+        # signatures of the callees whose arguments the rules look at (attribute name -> parameters)
+        self.sigs: dict[str, list[str]] = {"dfs": self.dfs_params,
+                                           "push_component_metric": ["component_id", "nones_are_zeros", "fallback"],
+                                           "push_oper": ["oper"]}
+        for cls, names in ((fg, ("_get_meter_fallback_components", "_is_primary_fallback_pair", "_get_metric_fallback_components")),
+                           (cons, ("_are_grid_meters", "_gen_with_grid_meter", "_gen_without_grid_meter"))):
+            for n in names:
+                if n not in cls.methods:
+                    raise AnalysisError(f"anchor {cls.qual}.{n} not found")
+                self.sigs[n] = cls.methods[n].params[1:]
+        self._prep: dict[str, FuncInfo] = {}
+
+    def prep(self, fn: FuncInfo) -> FuncInfo:
+        """Statements that were extracted into simple private helpers are spliced back (analysis only)."""
+        if fn.qual not in self._prep:
+            node = inline_helpers(self.prog, fn, exclude=KEEP_CALLEES)
+            self._prep[fn.qual] = FuncInfo(fn.name, fn.module, node, fn.cls, fn.outer)
+        return self._prep[fn.qual]
+
+    def positional(self, expr: ast.AST) -> ast.AST:
+        """Keyword arguments of the known callees moved to their parameter position (in place on a copy)."""
+        for n in ast.walk(expr):
+            if isinstance(n, ast.Call) and isinstance(n.func, ast.Attribute) and n.func.attr in self.sigs and n.keywords:
+                ps = self.sigs[n.func.attr]
+                args = call_args(n, ps)
+                if args is None:
+                    continue
+                ordered = []
+                for p in ps:
+                    if p not in args:
+                        break
+                    ordered.append(p)
+                if set(ordered) == set(args):
+                    n.args = [args[p] for p in ordered]
+                    n.keywords = []
+                elif len(n.args) < len(ordered):
+                    # a prefix can be made positional, the rest stays keyword (sorted)
+                    n.args = [args[p] for p in ordered]
+                    n.keywords = sorted((k for k in n.keywords if k.arg not in ordered), key=lambda k: k.arg or "")
+                else:
+                    n.keywords = sorted(n.keywords, key=lambda k: k.arg or "")
+        return expr
+
+    def norm(self, expr: ast.AST, mapping: dict[str, str] | None = None) -> ast.AST:
+        e = alias(rename(expr, mapping or {}), GRAPH_TEXTS, "GRAPH")
+        return self.positional(e)
+
+    def value(self, fn: FuncInfo, defs: dict[str, ast.AST], expr: ast.AST, mapping: dict[str, str] | None = None) -> ast.AST:
+        """`expr` inside `fn` as a value: locals substituted, private helpers expanded, aliases unified."""
+        nested = {n.name: n for s in fn.node.body for n in walk_no_nested(s) if isinstance(n, (ast.FunctionDef, ast.AsyncFunctionDef))}
+        return self.norm(self.folder.expr(deref(expr, defs), {}, fn, nested, 0), mapping)
+
+    def predicate(self, fn: FuncInfo, graph_self: bool = False) -> tuple[Any, ast.AST]:
+        """(canonical form, expression) of what a predicate function returns over `%1`, `%2`, ..."""
+        m = pmap(fn)
+        if graph_self:
+            m["self"] = "GRAPH"
+        e = self.norm(self.folder.ret_expr(fn), m)
+        return bcanon(e), e
+
+    def callable_value(self, fn: FuncInfo, defs: dict[str, ast.AST], expr: ast.AST) -> tuple[Any, ast.AST]:
+        e = self.norm(resolve_callable(self.folder, fn, expr, defs))
+        return bcanon(e), e
+
+    def graph_dfs_calls(self, fn: FuncInfo, defs: dict[str, ast.AST]) -> list[ast.Call]:
+        out = []
+        for n in ast.walk(fn.node):
+            if isinstance(n, ast.Call) and isinstance(n.func, ast.Attribute) and n.func.attr == "dfs" \
+                    and txt(self.norm(deref(n.func.value, defs))) == "GRAPH":
+                out.append(n)
+        return out
+
+    def dfs_condition(self, fn: FuncInfo, defs: dict[str, ast.AST], call: ast.Call) -> tuple[Any, ast.AST] | None:
+        args = call_args(call, self.dfs_params)
+        if args is None or self.dfs_params[2] not in args:
+            return None
+        return self.callable_value(fn, defs, args[self.dfs_params[2]])
+
 
 def chain_calls(node: ast.AST) -> set[str]:
     return {c.func.attr for c in ast.walk(node) if isinstance(c, ast.Call) and isinstance(c.func, ast.Attribute)
             and c.func.attr.startswith("is_") and c.func.attr.endswith("_chain")}
 
 
-def check_part(run: Run, prog: Program) -> None:
+def is_empty_set(e: ast.AST | None) -> bool:
+    return e is not None and txt(e) in ("set()", "frozenset()", "set(())", "set([])")
+
+
+def chain_atom(kind_pred: str, var: str) -> Any:
+    return ("truthy", f"GRAPH.{kind_pred}({var})")
+
+
+# ------------------------------------------------------------------------------------------------
+def check_part(run: Run, cx: Ctx) -> None:
+    prog = cx.prog
     cg = prog.cls(CG)
     all_chains = {m for m in cg.methods if m.startswith("is_") and m.endswith("_chain")}
     want = {f"is_{k}_chain" for k in KINDS}
@@ -44,106 +167,104 @@ def check_part(run: Run, prog: Program) -> None:
               f"the component graph defines chain kinds {sorted(all_chains)}, the formula generators know "
               f"{sorted(want)}", node=cg.node, file=cg.module.rel)
     cons = prog.cls(f"{GEN}._consumer_power_formula:ConsumerPowerFormula")
-    sites: dict[str, tuple[FuncInfo, ast.AST]] = {}
+    # the three sibling predicates, bound by role: what `_are_grid_meters` returns, and the `condition`
+    # argument of the graph search in each of the two generator variants
     agm = cons.methods["_are_grid_meters"]
-    sites["_are_grid_meters"] = (agm, agm.node)
-    for holder, inner in (("_gen_with_grid_meter", "non_consumer_component"), ("_gen_without_grid_meter", "consumer_component")):
-        h = cons.methods[holder]
-        nf = prog.nested(h, inner)
-        sites[inner] = (h, nf.node)
-    for name, (fn, node) in sites.items():
+    forms: dict[str, tuple[FuncInfo, ast.AST, Any, ast.AST]] = {}
+    c, e = cx.predicate(agm)
+    forms["_are_grid_meters"] = (agm, agm.node, c, e)
+    for holder, role in (("_gen_with_grid_meter", "non_consumer_component"), ("_gen_without_grid_meter", "consumer_component")):
+        h = cx.prep(cons.methods[holder])
+        defs = single_defs(h.node)
+        calls = cx.graph_dfs_calls(h, defs)
+        got_c = cx.dfs_condition(h, defs, calls[0]) if len(calls) == 1 else None
+        if got_c is None:  # no (single) graph search with a condition: reported below as "excludes nothing"
+            forms[role] = (h, h.node, None, ast.Constant(None))
+        else:
+            forms[role] = (h, calls[0], got_c[0], got_c[1])
+    for name, (fn, node, _c, e) in forms.items():
         run.analysed(fn.qual)
-        got = chain_calls(node)
+        got = chain_calls(e)
         run.check(got == want, "C12.PART", fn.qual, f"{name} excludes {sorted(got)}",
                   f"`{name}` separates consumers from {sorted(got)} but the other sibling predicates (and the "
                   f"graph) use {sorted(want)}: the two consumer-formula variants, or consumer vs the device "
                   "formulas, would classify some component differently and the balance breaks",
                   node=node, file=fn.file, instance=f"{name} excludes all chain kinds")
     # shape of each sibling
-    rets = [r for r in body_walk(agm.node) if isinstance(r, ast.Return)]
-    ok = len(rets) == 1 and isinstance(rets[0].value, ast.Call) and u(rets[0].value.func) == "all"
-    if ok:
-        ge = rets[0].value.args[0]
-        c = canon(ge.elt)
-        want_c = ("and", frozenset({("==", frozenset({"successor.category", "ComponentCategory.METER"}))}
-                                  | {("not", ("truthy", f"component_graph.{k}(successor)")) for k in want}))
-        ok = c == want_c and not ge.generators[0].ifs and u(ge.generators[0].iter) == agm.params[1]
-    run.check(ok, "C12.PART", agm.qual, "all(successor is a METER and in no device chain)",
+    want_c = ("all", "%1", ("and", frozenset({("==", frozenset({"?0.category", METER}))}
+                                             | {("not", chain_atom(k, "?0")) for k in want})))
+    run.check(forms["_are_grid_meters"][2] == want_c, "C12.PART", agm.qual, "all(successor is a METER and in no device chain)",
               "`_are_grid_meters` is not `every grid successor is a meter outside every device chain` (e.g. "
               "is_grid_meter() means *the only* grid successor, so two mixed grid meters would take the "
               "no-grid-meter path and consumer power would be the plain sum of the grid meters)",
               node=agm.node, file=agm.file)
-    ncc = sites["non_consumer_component"][1]
-    r = [x for x in walk_no_nested(ncc) if isinstance(x, ast.Return)]
-    ok = len(r) == 1 and canon(r[0].value) == ("or", frozenset(("truthy", f"component_graph.{k}(component)") for k in want))
-    run.check(ok, "C12.PART", sites["non_consumer_component"][0].qual, "non_consumer = any device chain",
-              "`non_consumer_component` is not the disjunction of all device chains", node=ncc,
-              file=sites["non_consumer_component"][0].file)
-    cc = sites["consumer_component"][1]
-    r = [x for x in walk_no_nested(cc) if isinstance(x, ast.Return)]
-    ok = len(r) == 1 and isinstance(canon(r[0].value), tuple) and canon(r[0].value)[0] == "and" and \
-        {("not", ("truthy", f"component_graph.{k}(component)")) for k in want} <= set(canon(r[0].value)[1])
-    run.check(ok, "C12.PART", sites["consumer_component"][0].qual, "consumer = meter/inverter outside every device chain",
-              "`consumer_component` does not exclude every device chain", node=cc, file=sites["consumer_component"][0].file)
+    fn, node, c, _e = forms["non_consumer_component"]
+    run.check(c == ("or", frozenset(chain_atom(k, "%1") for k in want)), "C12.PART", fn.qual, "non_consumer = any device chain",
+              "`non_consumer_component` is not the disjunction of all device chains", node=node, file=fn.file)
+    fn, node, c, _e = forms["consumer_component"]
+    ok = isinstance(c, tuple) and c[0] == "and" and {("not", chain_atom(k, "%1")) for k in want} <= set(c[1])
+    run.check(ok, "C12.PART", fn.qual, "consumer = meter/inverter outside every device chain",
+              "`consumer_component` does not exclude every device chain", node=node, file=fn.file)
     # producer kinds
-    prod = prog.func(f"{GEN}._producer_power_formula:ProducerPowerFormula.generate")
+    prod = cx.prep(prog.func(f"{GEN}._producer_power_formula:ProducerPowerFormula.generate"))
     run.analysed(prod.qual)
-    dfs_calls = find_calls(prod.node, lambda c: isinstance(c.func, ast.Attribute) and c.func.attr == "dfs")
-    got = chain_calls(dfs_calls[0]) if dfs_calls else set()
-    run.check(got == {f"is_{k}_chain" for k in PRODUCER_KINDS}, "C12.PART", prod.qual, f"producer kinds {sorted(got)}",
+    defs = single_defs(prod.node)
+    calls = cx.graph_dfs_calls(prod, defs)
+    pc = cx.dfs_condition(prod, defs, calls[0]) if len(calls) == 1 else None
+    got = chain_calls(pc[1]) if pc else set()
+    ok = got == {f"is_{k}_chain" for k in PRODUCER_KINDS} and pc is not None and \
+        pc[0] == ("or", frozenset(chain_atom(f"is_{k}_chain", "%1") for k in PRODUCER_KINDS))
+    run.check(ok, "C12.PART", prod.qual, f"producer kinds {sorted(got)}",
               f"producer power searches {sorted(got)}; with the pool-backed kinds {sorted(POOL_KINDS)} this must "
               f"add up to all chain kinds {sorted(want)}", node=prod.node, file=prod.file)
     run.check({f"is_{k}_chain" for k in PRODUCER_KINDS | POOL_KINDS} == want, "C12.PART", cg.qual,
               "producer kinds + pool-backed kinds = all chain kinds", "frozen kind table out of date",
               node=cg.node, file=cg.module.rel)
-    pv = prog.func(f"{GEN}._pv_power_formula:PVPowerFormula.generate")
+    pv = cx.prep(prog.func(f"{GEN}._pv_power_formula:PVPowerFormula.generate"))
     run.analysed(pv.qual)
-    dfs_calls = find_calls(pv.node, lambda c: isinstance(c.func, ast.Attribute) and c.func.attr == "dfs")
-    ok = len(dfs_calls) == 1 and u(dfs_calls[0].args[2]).endswith("is_pv_chain")
-    run.check(ok, "C12.PART", pv.qual, "PV power searches is_pv_chain", "PV power does not search the PV chain",
-              node=pv.node, file=pv.file)
+    defs = single_defs(pv.node)
+    calls = cx.graph_dfs_calls(pv, defs)
+    pc = cx.dfs_condition(pv, defs, calls[0]) if len(calls) == 1 else None
+    run.check(pc is not None and pc[0] == chain_atom("is_pv_chain", "%1"), "C12.PART", pv.qual, "PV power searches is_pv_chain",
+              "PV power does not search the PV chain", node=pv.node, file=pv.file)
 
 
-def conjuncts(fn: FuncInfo) -> tuple[set[Any], str | None]:
-    rets = [r for r in body_walk(fn.node) if isinstance(r, ast.Return)]
-    if len(rets) != 1:
+# ------------------------------------------------------------------------------------------------
+SUCC = "GRAPH.successors(%1.component_id)"
+
+
+def meter_conjuncts(c: Any) -> tuple[set[Any], str | None]:
+    """Conjunct set of an is_*_meter predicate, with its leaf predicate abstracted to LEAF."""
+    if not (isinstance(c, tuple) and c and c[0] == "and"):
         return set(), None
-    c = canon(rets[0].value)
-    if not (isinstance(c, tuple) and c[0] == "and"):
-        return set(), None
+    out: set[Any] = set()
     leaf = None
-    norm = set()
-    succ_defs = {u(s.targets[0]): u(s.value) for s in body_walk(fn.node) if isinstance(s, ast.Assign)}
     for k in c[1]:
-        if isinstance(k, tuple) and k[0] == "truthy" and k[1].startswith("all("):
-            call = ast.parse(k[1], mode="eval").body
-            ge = call.args[0]
-            it = u(ge.generators[0].iter)
-            it = succ_defs.get(it, it)
-            pred = ge.elt.func.attr if isinstance(ge.elt, ast.Call) and isinstance(ge.elt.func, ast.Attribute) else "?"
-            leaf = pred
-            norm.add(("all-successors", it.replace(" ", ""), "LEAF" if not ge.generators[0].ifs else "filtered"))
-        elif isinstance(k, tuple) and k[0] == "<" and k[1] == "0" and k[2].startswith("len("):
-            inner = k[2][4:-1]
-            norm.add(("nonempty", succ_defs.get(inner, inner).replace(" ", "")))
+        if k == ("truthy", SUCC):
+            out.add(("nonempty", SUCC))  # a set is truthy iff it is not empty
+        elif isinstance(k, tuple) and k[0] == "all" and isinstance(k[2], tuple) and k[2][0] == "truthy" \
+                and k[2][1].startswith("GRAPH.") and k[2][1].endswith("(?0)") and leaf is None:
+            leaf = k[2][1][len("GRAPH."):-len("(?0)")]
+            out.add(("all", k[1], "LEAF"))
         else:
-            norm.add(k)
-    return norm, leaf
+            out.add(k)
+    return out, leaf
 
 
-def check_meter(run: Run, prog: Program) -> None:
+def check_meter(run: Run, cx: Ctx) -> None:
+    prog = cx.prog
     cg = prog.cls(CG)
-    ref = None
     for kind, leaf in KINDS.items():
         m = cg.methods.get(f"is_{kind}_meter")
         if m is None:
             raise AnalysisError(f"is_{kind}_meter not found")
         run.analysed(m.qual)
-        cs, got_leaf = conjuncts(m)
-        want = {("==", frozenset({"component.category", "ComponentCategory.METER"})),
-                ("not", ("truthy", "self.is_grid_meter(component)")),
-                ("nonempty", "self.successors(component.component_id)"),
-                ("all-successors", "self.successors(component.component_id)", "LEAF")}
+        c, _e = cx.predicate(m, graph_self=True)
+        cs, got_leaf = meter_conjuncts(c)
+        want = {("==", frozenset({"%1.category", METER})),
+                ("not", ("truthy", "GRAPH.is_grid_meter(%1)")),
+                ("nonempty", SUCC),
+                ("all", SUCC, "LEAF")}
         run.check(cs == want and got_leaf == leaf, "C12.METER", m.qual, f"is_{kind}_meter conjuncts",
                   f"`is_{kind}_meter` is not `METER and not the grid meter and has successors and all "
                   f"successors satisfy {leaf}` like its three siblings (got leaf {got_leaf}, conjuncts "
@@ -151,83 +272,265 @@ def check_meter(run: Run, prog: Program) -> None:
                   "only such devices below it is classed as a device meter and unmetered load at it is lost",
                   node=m.node, file=m.file, instance=f"is_{kind}_meter has the sibling shape with leaf {leaf}")
         ch = cg.methods.get(f"is_{kind}_chain")
-        rets = [r for r in body_walk(ch.node) if isinstance(r, ast.Return)] if ch else []
-        ok = len(rets) == 1 and canon(rets[0].value) == ("or", frozenset({("truthy", f"self.{leaf}(component)"),
-                                                                          ("truthy", f"self.is_{kind}_meter(component)")}))
+        ok = False
+        if ch is not None:
+            c, _e = cx.predicate(ch, graph_self=True)
+            ok = c == ("or", frozenset({("truthy", f"GRAPH.{leaf}(%1)"), ("truthy", f"GRAPH.is_{kind}_meter(%1)")}))
         run.check(ok, "C12.METER", ch.qual if ch else cg.qual, f"is_{kind}_chain = {leaf} or is_{kind}_meter",
                   f"`is_{kind}_chain` is not `{leaf} or is_{kind}_meter`", node=ch.node if ch else cg.node, file=cg.module.rel)
     fg = prog.cls(f"{GEN}._formula_generator:FormulaGenerator")
     pf = fg.methods["_is_primary_fallback_pair"]
     run.analysed(pf.qual)
-    rets = [r for r in body_walk(pf.node) if isinstance(r, ast.Return)]
-    want = ("or", frozenset(("and", frozenset({("truthy", f"graph.{leaf}(fallback)"), ("truthy", f"graph.is_{kind}_meter(primary)")}))
-                            for kind, leaf in KINDS.items()))
-    ok = len(rets) == 1 and canon(rets[0].value) == want
-    run.check(ok, "C12.METER", pf.qual, "each leaf kind paired with its own meter kind",
+    c, _e = cx.predicate(pf)  # %1 = primary candidate, %2 = fallback candidate (by position)
+    want_pf = ("or", frozenset(("and", frozenset({("truthy", f"GRAPH.{leaf}(%2)"), ("truthy", f"GRAPH.is_{kind}_meter(%1)")}))
+                               for kind, leaf in KINDS.items()))
+    run.check(c == want_pf, "C12.METER", pf.qual, "each leaf kind paired with its own meter kind",
               "a device is paired as fallback with a meter of another kind (or a kind is missing)", node=pf.node, file=pf.file)
     mf = fg.methods["_get_meter_fallback_components"]
     run.analysed(mf.qual)
-    tests = [n for n in body_walk(mf.node) if isinstance(n, ast.If)]
-    want = ("or", frozenset(("truthy", f"all((graph.{leaf}(c) for c in successors))") for leaf in KINDS.values()))
-    ok = len(tests) == 1 and canon(tests[0].test) == want and u(tests[0].body[0]) == "return successors"
+    e = cx.norm(cx.folder.ret_expr(mf), pmap(mf))
+    want_mf = ("or", frozenset(("all", SUCC, ("truthy", f"GRAPH.{leaf}(?0)")) for leaf in KINDS.values()))
+    ok = False
+    if isinstance(e, ast.IfExp):
+        if is_empty_set(e.orelse):
+            ok = bcanon(e.test) == want_mf and txt(e.body) == SUCC
+        elif is_empty_set(e.body):
+            ok = bcanon(e.test, True) == want_mf and txt(e.orelse) == SUCC
     run.check(ok, "C12.METER", mf.qual, "fallback components only when all successors are of ONE device kind",
               "a meter gets its successors as fallback unless they are *all of one* device kind: with the four "
               "alternatives folded into one `all(a or b or c or d)` a mixed meter (several device kinds plus "
               "unmetered load) would fall back to the sum of its devices and silently drop the load",
               node=mf.node, file=mf.file)
-    mfc = fg.methods["_get_metric_fallback_components"]
+    mfc = cx.prep(fg.methods["_get_metric_fallback_components"])
     run.analysed(mfc.qual)
-    t = u(mfc.node).replace(" ", "")
-    ok = "ifcomponent.category==ComponentCategory.METER:fallbacks[component]=self._get_meter_fallback_components(component)" in t.replace("\n", "") \
-        and "self._is_primary_fallback_pair(predecessor,component)" in t and "iflen(predecessors)==1:" in t
-    run.check(ok, "C12.METER", mfc.qual, "meters -> their fallbacks; devices -> their single metering predecessor",
+    run.check(pairing_ok(cx, mfc), "C12.METER", mfc.qual, "meters -> their fallbacks; devices -> their single metering predecessor",
               "primary/fallback selection does not pair a device with its single predecessor meter", node=mfc.node, file=mfc.file)
 
 
-def check_dfs(run: Run, prog: Program) -> None:
-    fn = prog.func(f"{CG}.dfs")
+def pairing_ok(cx: Ctx, fn: FuncInfo) -> bool:
+    """_get_metric_fallback_components, decided on the CFG of one loop iteration:
+    on `category == METER` the result maps the component to `_get_meter_fallback_components(component)` and
+    nothing else happens; otherwise the component is added to the entry of *the popped single predecessor*
+    exactly when `len(predecessors) == 1` and `_is_primary_fallback_pair(predecessor, component)` hold, and
+    gets an own empty entry on every other path."""
+    cfg = CFG(fn.node, fn.file)
+    defs = single_defs(fn.node)
+    if len(fn.params) != 2:
+        return False
+    heads = [n for n in cfg.nodes if n.kind == "for" and isinstance(n.ast.target, ast.Name)  # type: ignore[union-attr]
+             and txt(deref(n.ast.iter, defs)) == fn.params[1]]  # type: ignore[union-attr]
+    rets = [n.ast.value for n in cfg.nodes if n.kind == "stmt" and isinstance(n.ast, ast.Return)]
+    if len(heads) != 1 or not rets or not all(isinstance(r, ast.Name) for r in rets) or len({r.id for r in rets}) != 1:  # type: ignore[union-attr]
+        return False
+    res = rets[0].id  # type: ignore[union-attr]
+    if res not in defs or txt(defs[res]) not in ("{}", "dict()"):
+        return False
+    h = heads[0].id
+    x = heads[0].ast.target.id  # type: ignore[union-attr]
+    entry = [m for m, lab in cfg.succ[h] if lab == "iter"]
+    body = cfg.reachable(entry, avoid=[h], edge_ok=normal)
+    val = lambda e: cx.value(fn, defs, e)  # noqa: E731
+    pred = f"GRAPH.predecessors({x}.component_id)"
+    pops = (f"{pred}.pop()", f"next(iter({pred}))")
+
+    def stmts(test: Callable[[ast.AST], bool]) -> set[int]:
+        return {n for n in body if cfg.nodes[n].kind == "stmt" and cfg.nodes[n].ast is not None and test(cfg.nodes[n].ast)}  # type: ignore[arg-type]
+
+    def assigns_entry(s: ast.AST, value_ok: Callable[[ast.AST], bool]) -> bool:
+        return isinstance(s, ast.Assign) and len(s.targets) == 1 and txt(val(s.targets[0])) == f"{res}[{x}]" and value_ok(val(s.value))
+
+    n_mf = stmts(lambda s: assigns_entry(s, lambda v: txt(v) == f"self._get_meter_fallback_components({x})"))
+    n_own = stmts(lambda s: assigns_entry(s, is_empty_set))
+    n_add = stmts(lambda s: isinstance(s, ast.Expr) and txt(val(s.value)) in {f"{res}.setdefault({q}, set()).add({x})" for q in pops})
+    meter = ("==", frozenset({f"{x}.category", METER}))
+    e_m = edges_establishing(cfg, lambda a: a == meter, val, within=body)
+    e_nm = edges_establishing(cfg, lambda a: a == ("!=", meter[1]), val, within=body)
+    e_pair = edges_establishing(cfg, lambda a: a in {("truthy", f"self._is_primary_fallback_pair({q}, {x})") for q in pops}, val, within=body)
+    e_len = edges_establishing(cfg, lambda a: a == ("==", frozenset({"1", f"len({pred})"})), val, within=body)
+    t_pair = {e[0] for e in e_pair}
+    if not (n_mf and n_own and n_add and e_m and e_nm and e_pair and e_len):
+        return False
+
+    def after(m: int) -> set[int]:
+        return cfg.reachable([m], avoid=[h], edge_ok=normal)
+
+    def must_pass(m: int, through: set[int]) -> bool:
+        return m in through or cfg.path(m, [h], avoid=through, edge_ok=normal) is None
+
+    for _t, m, _lab in e_m:  # a meter: its fallbacks, nothing else
+        if not must_pass(m, n_mf) or after(m) & (n_add | n_own | t_pair):
+            return False
+    if path_avoiding_edges(cfg, entry, n_mf, e_m, avoid=[h]):
+        return False
+    for _t, m, _lab in e_nm:  # a device: exactly one of "joins its meter" / "own empty entry"
+        if not must_pass(m, n_add | n_own) or after(m) & n_mf:
+            return False
+    if path_avoiding_edges(cfg, entry, n_add | n_own | t_pair, e_nm, avoid=[h]):
+        return False
+    if path_avoiding_edges(cfg, entry, n_add, e_pair, avoid=[h]) or path_avoiding_edges(cfg, entry, t_pair, e_len, avoid=[h]):
+        return False
+    for _t, m, _lab in e_pair:
+        if not must_pass(m, n_add) or after(m) & n_own:
+            return False
+    return True
+
+
+# ------------------------------------------------------------------------------------------------
+def check_dfs(run: Run, cx: Ctx) -> None:
+    fn = cx.prep(cx.prog.func(f"{CG}.dfs"))
     run.analysed(fn.qual)
     cfg = CFG(fn.node, fn.file)
-    cur, vis, cond = fn.params[1], fn.params[2], fn.params[3]
-    cond_t = [t for t in cfg.nodes if t.kind == "test" and u(t.ast) == f"{cond}({cur})"]
+    defs = single_defs(fn.node)
+    cur, vis, cond = fn.params[1:4]
+    val = lambda e: deref(e, defs)  # noqa: E731
+    returns = {n.id for n in cfg.nodes if n.kind == "stmt" and isinstance(n.ast, ast.Return)}
+
+    def defs_via(nid: int, name: str, m: int) -> list[int]:
+        """Definitions of `name` that reach `nid` on paths through `m` (the first node after a branch)."""
+        region = cfg.reachable([m], edge_ok=normal)
+        out: list[int] = []
+        seen = {nid}
+        stack = [nid]
+        while stack:
+            n = stack.pop()
+            if n == m:
+                out.extend(d for d in reaching_defs(cfg, m, name) if d not in out)
+                continue
+            for p, lab in cfg.pred[n]:
+                if p in seen or p not in region or lab.startswith("exc:"):
+                    continue
+                seen.add(p)
+                if any(txt(w) == name for w in node_writes(cfg, p)):
+                    out.append(p)
+                else:
+                    stack.append(p)
+        return out
+
+    def ret_value_ok(nid: int, ok: Callable[[ast.AST], bool], m: int) -> bool:
+        """The returned value satisfies `ok`, directly or through every definition that reaches the return
+        on the paths through `m`."""
+        v = cfg.nodes[nid].ast.value  # type: ignore[union-attr]
+        if v is None:
+            return False
+        if ok(val(v)):
+            return True
+        if isinstance(v, ast.Name):
+            ds = defs_via(nid, v.id, m)
+            return bool(ds) and all(isinstance(cfg.nodes[d].ast, (ast.Assign, ast.AnnAssign)) and cfg.nodes[d].ast.value is not None  # type: ignore[union-attr]
+                                    and ok(val(cfg.nodes[d].ast.value)) for d in ds)  # type: ignore[union-attr]
+        return False
+
+    def returns_only(m: int, ok: Callable[[ast.AST], bool]) -> bool:
+        region = cfg.reachable([m], edge_ok=normal)
+        rs = region & returns
+        return bool(rs) and all(ret_value_ok(r, ok, m) for r in rs) and (m in rs or cfg.path(m, [cfg.exit], avoid=rs, edge_ok=normal) is None)
+
+    def singleton(v: ast.AST) -> bool:
+        return txt(v) in ("{" + cur + "}", f"set([{cur}])", f"set(({cur},))")
+
+    def is_mark(s: ast.AST) -> bool:
+        if isinstance(s, ast.Expr) and isinstance(s.value, ast.Call):
+            c = s.value
+            return (method_call(c, vis, "add") and [txt(a) for a in c.args] == [cur] and not c.keywords) or \
+                (method_call(c, vis, "update") and len(c.args) == 1 and singleton(c.args[0]) and not c.keywords)
+        return isinstance(s, ast.AugAssign) and txt(s.target) == vis and isinstance(s.op, ast.BitOr) and singleton(s.value)
+
     rec = nodes_with_call(cfg, lambda c: method_call(c, "self", "dfs"))
-    mark = nodes_with_call(cfg, lambda c: method_call(c, vis, "add") and [u(a) for a in c.args] == [cur])
-    ok = len(cond_t) == 1 and bool(rec) and len(mark) == 1
+    mark = [n.id for n in cfg.nodes if n.kind == "stmt" and n.ast is not None and is_mark(n.ast)]
+    hits = edges_establishing(cfg, lambda a: a == ("truthy", f"{cond}({cur})"), val)
+    ok = len({e[0] for e in hits}) == 1 and bool(rec) and len(mark) == 1
     if ok:
-        t = cond_t[0]
-        hit = cfg.reachable([m for m, lab in cfg.succ[t.id] if lab == "true"])
-        ok = not any(r in hit for r in rec) and any(
-            isinstance(cfg.nodes[x].ast, ast.Return) and u(cfg.nodes[x].ast.value) == "{" + cur + "}" for x in hit)
+        for _t, m, _lab in hits:
+            region = cfg.reachable([m], edge_ok=normal)
+            ok = ok and not any(r in region for r in rec) and returns_only(m, singleton)
     run.check(ok, "C12.DFS", fn.qual, "match -> return {node} without recursing",
               "the search recurses below a matching node (or does not return it): components behind a "
               "matched meter would be counted in addition to the meter", node=fn.node, file=fn.file)
     if not ok:
         return
-    wit = cfg.path(cfg.entry, [cond_t[0].id], avoid=mark)
+    t_hit = hits[0][0]
+    wit = cfg.path(cfg.entry, [t_hit], avoid=mark, edge_ok=normal)
     run.check(wit is None, "C12.DFS", fn.qual, "visited marked before testing", "a node can be tested twice",
               node=fn.node, file=fn.file, path=cfg.describe_path(wit))
     loops = [h for h in cfg.nodes if h.kind == "for"]
-    ok = len(loops) == 1 and u(loops[0].ast.iter) == f"self.successors({cur}.component_id)"  # type: ignore[union-attr]
+    ok = len(loops) == 1 and isinstance(loops[0].ast.target, ast.Name) \
+        and txt(val(loops[0].ast.iter)) == f"self.successors({cur}.component_id)"  # type: ignore[union-attr]
     if ok:
-        body = cfg.reachable([m for m, lab in cfg.succ[loops[0].id] if lab == "iter"], avoid=[loops[0].id])
-        ok = not any(cfg.nodes[x].kind == "test" or isinstance(cfg.nodes[x].ast, (ast.Break, ast.Continue)) for x in body) \
-            and any(r in body for r in rec)
-        c = find_calls(loops[0].ast, lambda c: method_call(c, "self", "dfs"))[0]  # type: ignore[arg-type]
-        ok = ok and [u(a) for a in c.args] == [u(loops[0].ast.target), vis, cond]  # type: ignore[union-attr]
-        ok = ok and "update(" in u(loops[0].ast)
+        h = loops[0].id
+        succ = loops[0].ast.target.id  # type: ignore[union-attr]
+        entry = [m for m, lab in cfg.succ[h] if lab == "iter"]
+        body = cfg.reachable(entry, avoid=[h], edge_ok=normal)
+        ok = not any(cfg.nodes[x].kind in ("test", "while", "for") or isinstance(cfg.nodes[x].ast, (ast.Break, ast.Continue, ast.Return))
+                     for x in body)
+        calls = [c for r in rec if r in body for c in node_calls(cfg, r, lambda c: method_call(c, "self", "dfs"))]
+        ok = ok and len(calls) == 1 and all(r in body for r in rec)
+        if ok:
+            args = call_args(calls[0], fn.params[1:4])
+            ok = args is not None and [txt(val(args.get(p))) if args.get(p) is not None else None for p in fn.params[1:4]] == [succ, vis, cond]
+        if ok:
+            rtxt = txt(val(calls[0]))
+
+            def accumulates(s: ast.AST) -> str | None:
+                """Name of the set the statement unions the recursive result into."""
+                if isinstance(s, ast.Expr) and isinstance(s.value, ast.Call) and isinstance(s.value.func, ast.Attribute) \
+                        and s.value.func.attr == "update" and isinstance(s.value.func.value, ast.Name) \
+                        and [txt(val(a)) for a in s.value.args] == [rtxt] and not s.value.keywords:
+                    return s.value.func.value.id
+                if isinstance(s, ast.AugAssign) and isinstance(s.target, ast.Name) and isinstance(s.op, ast.BitOr) and txt(val(s.value)) == rtxt:
+                    return s.target.id
+                if isinstance(s, ast.Assign) and len(s.targets) == 1 and isinstance(s.targets[0], ast.Name):
+                    a, v = s.targets[0].id, s.value
+                    if isinstance(v, ast.BinOp) and isinstance(v.op, ast.BitOr) and {txt(val(v.left)), txt(val(v.right))} == {a, rtxt}:
+                        return a
+                    if isinstance(v, ast.Call) and isinstance(v.func, ast.Attribute) and v.func.attr == "union" and len(v.args) == 1 \
+                            and not v.keywords and {txt(val(v.func.value)), txt(val(v.args[0]))} == {a, rtxt}:
+                        return a
+                return None
+
+            accs = {x: accumulates(cfg.nodes[x].ast) for x in body if cfg.nodes[x].kind == "stmt" and cfg.nodes[x].ast is not None}  # type: ignore[arg-type]
+            accs = {x: a for x, a in accs.items() if a is not None}
+            ok = len(accs) == 1
+            if ok:
+                (an, acc), = accs.items()
+                ok = all(e == an or cfg.path(e, [h], avoid=[an], edge_ok=normal) is None for e in entry)
+                # starts empty, and is what the function returns once every successor has been searched
+                init = [d for d in reaching_defs(cfg, h, acc) if d not in body]
+                ok = ok and bool(init) and all(isinstance(cfg.nodes[d].ast, (ast.Assign, ast.AnnAssign)) and is_empty_set(cfg.nodes[d].ast.value)  # type: ignore[union-attr]
+                                               for d in init)
+                done = [m for m, lab in cfg.succ[h] if lab == "done"]
+                ok = ok and bool(done) and all(returns_only(m, lambda v: txt(v) == acc) for m in done)
     run.check(ok, "C12.DFS", fn.qual, "recurse into every successor with the same visited set and condition",
               "the search skips successors or changes the condition/visited set while recursing", node=fn.node, file=fn.file)
-    seen = [t for t in cfg.nodes if t.kind == "test" and canon(t.ast) == ("in", cur, vis)]
-    run.check(len(seen) == 1, "C12.DFS", fn.qual, "already visited -> empty", "revisiting is not cut off", node=fn.node, file=fn.file)
+    seen = edges_establishing(cfg, lambda a: a == ("in", cur, vis), val)
+    ok = len({e[0] for e in seen}) == 1
+    for _t, m, _lab in seen:
+        region = cfg.reachable([m], edge_ok=normal)
+        ok = ok and not any(r in region for r in rec) and returns_only(m, is_empty_set)
+    run.check(ok, "C12.DFS", fn.qual, "already visited -> empty", "revisiting is not cut off", node=fn.node, file=fn.file)
 
 
-def sum_loops(fn: FuncInfo) -> list[ast.For]:
-    return [s for s in ast.walk(fn.node) if isinstance(s, ast.For) and any(
-        isinstance(c, ast.Call) and isinstance(c.func, ast.Attribute) and c.func.attr == "push_component_metric"
-        for c in ast.walk(s))]
+# ------------------------------------------------------------------------------------------------
+def is_call_attr(c: ast.Call, attr: str) -> bool:
+    return isinstance(c.func, ast.Attribute) and c.func.attr == attr
 
 
-def check_emit(run: Run, prog: Program) -> None:
+def loop_source(cx: Ctx, fn: FuncInfo, defs: dict[str, ast.AST], it: ast.AST) -> tuple[ast.AST, bool]:
+    """The collection a sum loop ranges over (`enumerate`, `.items()`/`.keys()` and the fallback-formula
+    lookup peeled off) and whether the loop variable comes with an enumerate index."""
+    e = cx.value(fn, defs, it)
+    enumerated = False
+    if isinstance(e, ast.Call) and isinstance(e.func, ast.Name) and e.func.id == "enumerate" and len(e.args) == 1 \
+            and (not e.keywords or ([k.arg for k in e.keywords] == ["start"] and txt(e.keywords[0].value) == "0")):
+        enumerated, e = True, e.args[0]
+    if isinstance(e, ast.Call) and isinstance(e.func, ast.Attribute) and e.func.attr in ("items", "keys") and not e.args and not e.keywords:
+        e = e.func.value
+    if isinstance(e, ast.Call) and method_call(e, "self", "_get_fallback_formulas") and len(e.args) == 1 and not e.keywords:
+        e = e.args[0]
+    return e, enumerated
+
+
+def check_emit(run: Run, cx: Ctx) -> None:
+    prog = cx.prog
     targets = [
         f"{GEN}._grid_power_formula_base:GridPowerFormulaBase._generate",
         f"{GEN}._consumer_power_formula:ConsumerPowerFormula._gen_with_grid_meter",
@@ -243,89 +546,226 @@ def check_emit(run: Run, prog: Program) -> None:
     CONST_FALSE_OK = {"CHPPowerFormula.generate": "ranges over CHP meters only",
                       "ConsumerPowerFormula._gen_with_grid_meter": "the `+` loop ranges over the grid meters only"}
     n = 0
+    sources: dict[str, list[tuple[str, str]]] = {}  # function -> [(sign, text of the collection summed)]
     for q in targets:
-        fn = prog.func(q)
+        fn = cx.prep(prog.func(q))
         run.analysed(fn.qual)
         short = q.split(":")[1]
-        defs = {u(s.targets[0]): s.value for s in body_walk(fn.node) if isinstance(s, ast.Assign) and isinstance(s.targets[0], ast.Name)}
-        defs.update({u(s.target): s.value for s in body_walk(fn.node) if isinstance(s, ast.AnnAssign) and s.value is not None})
-        for loop in sum_loops(fn):
+        cfg = CFG(fn.node, fn.file)
+        defs = single_defs(fn.node)
+        parents = parent_map(fn.node)
+        val = lambda e, fn=fn, defs=defs: cx.value(fn, defs, e)  # noqa: E731
+        loops: list[ast.For] = []
+        for c in ast.walk(fn.node):
+            if isinstance(c, ast.Call) and is_call_attr(c, "push_component_metric"):
+                p = parents.get(c)
+                while p is not None and not isinstance(p, (ast.For, ast.AsyncFor, ast.While)):
+                    p = parents.get(p)
+                if isinstance(p, ast.For) and not any(p is x for x in loops):
+                    loops.append(p)
+        loops.sort(key=lambda s: s.lineno)
+        for k, loop in enumerate(loops):
             n += 1
-            metrics = [c for c in ast.walk(loop) if isinstance(c, ast.Call) and isinstance(c.func, ast.Attribute)
-                       and c.func.attr == "push_component_metric"]
-            opers = [s for s in loop.body if isinstance(s, ast.Expr) and isinstance(s.value, ast.Call)
-                     and isinstance(s.value.func, ast.Attribute) and s.value.func.attr == "push_oper"]
-            guarded = [s for s in loop.body if isinstance(s, ast.If) and any(
-                isinstance(c, ast.Call) and isinstance(c.func, ast.Attribute) and c.func.attr == "push_oper" for c in ast.walk(s))]
+            hs = cfg.nodes_of(loop)
+            if len(hs) != 1:
+                raise AnalysisError(f"{fn.qual}: sum loop at line {loop.lineno} has no unique CFG node")
+            h = hs[0]
+            entry = [m for m, lab in cfg.succ[h] if lab == "iter"]
+            body = cfg.reachable(entry, avoid=[h], edge_ok=normal)
+            # the iteration must end at the loop header (no break / return out of a half-emitted term)
+            closed = all(m in body or m == h for x in body for m, lab in cfg.succ[x] if normal(x, m, lab))
+            m_nodes = [x for x in body if node_calls(cfg, x, lambda c: is_call_attr(c, "push_component_metric"))]
+            o_nodes = [x for x in body if node_calls(cfg, x, lambda c: is_call_attr(c, "push_oper"))]
+            metrics = [c for x in m_nodes for c in node_calls(cfg, x, lambda c: is_call_attr(c, "push_component_metric"))]
+            opers = [c for x in o_nodes for c in node_calls(cfg, x, lambda c: is_call_attr(c, "push_oper"))]
+
+            def oper_of(c: ast.Call) -> str | None:
+                a = call_args(c, ["oper"])
+                v = val(a["oper"]) if a and "oper" in a else None
+                return v.value if isinstance(v, ast.Constant) and isinstance(v.value, str) else None
+
+            signs = [oper_of(c) for c in opers]
+            src, enumerated = loop_source(cx, fn, defs, loop.iter)
             idx = None
-            if isinstance(loop.iter, ast.Call) and u(loop.iter.func) == "enumerate" and isinstance(loop.target, ast.Tuple):
-                idx = u(loop.target.elts[0])
-            one_metric = len(metrics) == 1 and any(any(m is x for x in ast.walk(s)) for s in loop.body for m in metrics if not isinstance(s, ast.If))
-            subtract = bool(opers) and all(u(o.value.args[0]) in ("'-'", '"-"') for o in opers)
+            if enumerated and isinstance(loop.target, ast.Tuple) and len(loop.target.elts) == 2 and isinstance(loop.target.elts[0], ast.Name):
+                idx = loop.target.elts[0].id
+            # exactly one metric per iteration, on every path, not inside an inner loop
+            one_metric = closed and len(m_nodes) == 1 and len(metrics) == 1 and cfg.nodes[m_nodes[0]].kind == "stmt" \
+                and all(e == m_nodes[0] or cfg.path(e, [h], avoid=m_nodes, edge_ok=normal) is None for e in entry) \
+                and m_nodes[0] not in cfg.reachable([m_nodes[0]], avoid=[h], edge_ok=normal, include_src=False)
+            subtract = bool(signs) and all(s == "-" for s in signs)
+            ok = one_metric and len(o_nodes) == 1 and len(opers) == 1 and cfg.nodes[o_nodes[0]].kind == "stmt" and o_nodes[0] != m_nodes[0]
+            if ok:
+                mn, on = m_nodes[0], o_nodes[0]
+                ok = on not in cfg.reachable([mn], avoid=[h], edge_ok=normal, include_src=False)  # never after the term
             if subtract:
-                ok = one_metric and len(opers) == 1 and not guarded and loop.body.index(opers[0]) < [
-                    i for i, s in enumerate(loop.body) if any(metrics[0] is x for x in ast.walk(s))][0]
                 shape = "`-` before every subtracted term"
-            else:
-                ok = one_metric and not opers and len(guarded) == 1 and idx is not None and \
-                    canon(guarded[0].test) == ("<", "0", idx) and not guarded[0].orelse and \
-                    [u(c.args[0]) for c in ast.walk(guarded[0]) if isinstance(c, ast.Call) and isinstance(c.func, ast.Attribute)
-                     and c.func.attr == "push_oper"] in (["'+'"], ['"+"'])
                 if ok:
-                    gi = loop.body.index(guarded[0])
-                    mi = [i for i, s in enumerate(loop.body) if any(metrics[0] is x for x in ast.walk(s))][0]
-                    ok = gi < mi
+                    ok = all(e == on or cfg.path(e, [mn], avoid=[on], edge_ok=normal) is None for e in entry)
+            else:
                 shape = "`+` before every term but the first"
-            run.check(ok, "C12.EMIT", fn.qual, f"sum loop `{u(loop.target)} in {u(loop.iter)[:40]}`: {shape}",
+                ok = ok and signs == ["+"] and idx is not None
+                if ok:
+                    later = {("<", "0", idx), ("<=", "1", idx), ("!=", frozenset({idx, "0"})), ("truthy", idx)}
+                    first = {("==", frozenset({idx, "0"})), ("<", idx, "1"), ("<=", idx, "0"), ("not", ("truthy", idx))}
+                    e_later = edges_establishing(cfg, lambda a: a in later, val, within=body, total=True)
+                    e_first = edges_establishing(cfg, lambda a: a in first, val, within=body, total=True)
+                    # the index is never rebound inside the iteration
+                    ok = not any(isinstance(x, ast.Name) and x.id == idx and isinstance(x.ctx, ast.Store) for s in loop.body for x in ast.walk(s))
+                    # the operator is pushed only for idx > 0, and then always, before the term; never for idx == 0
+                    ok = ok and bool(e_later) and not path_avoiding_edges(cfg, entry, [on], e_later, avoid=[h])
+                    ok = ok and not path_avoiding_edges(cfg, entry, [mn], list(e_later) + list(e_first), avoid=[h])
+                    for _t, m, _lab in e_later:
+                        ok = ok and (m == on or cfg.path(m, [mn], avoid=[on], edge_ok=normal) is None)
+                    for _t, m, _lab in e_first:
+                        ok = ok and on not in cfg.reachable([m], avoid=[h], edge_ok=normal)
+            run.check(ok, "C12.EMIT", fn.qual, f"sum loop `{txt(loop.target)} in {txt(loop.iter)[:40]}`: {shape}",
                       "a sum-emitting loop does not push exactly one metric per term with an operator between "
                       "consecutive terms (a leading `+`, a missing operator or two metrics per term yields a "
                       "malformed or different formula)", node=loop, file=fn.file,
-                      instance=f"{short}: loop over {u(loop.iter)[:50]} emits a well-formed sum")
+                      instance=f"{short}: sum loop #{k + 1} emits a well-formed sum")
+            sources.setdefault(short, []).append(("-" if subtract else "+", txt(src)))
             if not metrics:
                 continue
-            kws = {k.arg: k.value for k in metrics[0].keywords}
-            naz = kws.get("nones_are_zeros")
-            comp_var = u(metrics[0].args[0]).split(".")[0] if metrics[0].args else "?"
-            t = u(naz).replace(" ", "").strip("()") if naz is not None else ""
-            if isinstance(naz, ast.Call) and isinstance(naz.func, ast.Name) and naz.func.id in defs and isinstance(defs[naz.func.id], ast.Lambda):
-                lam = defs[naz.func.id]
-                t = u(lam.body).replace(" ", "").replace(f"{lam.args.args[0].arg}.", f"{u(naz.args[0])}.")
-                comp_var = u(naz.args[0])
-            ok = t == f"{comp_var}.category!=ComponentCategory.METER"
+            margs = call_args(metrics[0], cx.sigs["push_component_metric"]) or {}
+            naz = margs.get("nones_are_zeros")
+            cid = val(margs["component_id"]) if "component_id" in margs else None
+            comp = txt(cid.value) if isinstance(cid, ast.Attribute) and cid.attr == "component_id" else None
+            c = bcanon(val(naz)) if naz is not None else None
+            t = txt(val(naz)) if naz is not None else ""
+            ok = comp is not None and c == ("!=", frozenset({f"{comp}.category", METER}))
             why = ""
-            if not ok and t == "True" and short in CONST_TRUE_OK:
+            if not ok and c == ("const", True) and short in CONST_TRUE_OK:
                 ok, why = True, CONST_TRUE_OK[short]
-            if not ok and t == "False" and short in CONST_FALSE_OK and (
-                    short != "ConsumerPowerFormula._gen_with_grid_meter" or "grid_meters" in u(loop.iter)):
+            if not ok and c == ("const", False) and short in CONST_FALSE_OK and (
+                    short != "ConsumerPowerFormula._gen_with_grid_meter" or (len(fn.params) == 3 and txt(src) == fn.params[2])):
                 ok, why = True, CONST_FALSE_OK[short]
-            run.check(ok, "C12.EMIT", fn.qual, f"nones_are_zeros={u(naz)}",
+            run.check(ok, "C12.EMIT", fn.qual, f"nones_are_zeros={txt(naz)}",
                       f"a term's missing values are treated as `{t}` instead of `category != METER` (a silent "
                       "device counts as 0, a silent meter makes the sum unknown)", node=metrics[0], file=fn.file,
-                      instance=f"{short}: nones_are_zeros is category != METER{(' (' + why + ')') if why else ''}")
+                      instance=f"{short}: sum loop #{k + 1}: nones_are_zeros is category != METER{(' (' + why + ')') if why else ''}")
     if n < 10:
         raise AnalysisError(f"C12.EMIT: only {n} sum loops found")
     # grid power: every grid successor of the admissible categories
-    gp = prog.func(targets[0])
-    comps = [s for s in body_walk(gp.node) if isinstance(s, ast.Assign) and u(s.targets[0]) == "components"]
-    ok = len(comps) == 1 and isinstance(comps[0].value, ast.SetComp)
+    gp = cx.prep(prog.func(targets[0]))
+    defs = single_defs(gp.node)
+    srcs = {s for _sign, s in sources.get(targets[0].split(":")[1], [])}
+    ok = len(srcs) == 1 and next(iter(srcs)) in defs
     if ok:
-        sc = comps[0].value
-        g = sc.generators[0]
-        cats = {u(e).split(".")[-1] for i in g.ifs for n2 in ast.walk(i) if isinstance(n2, ast.Set) for e in n2.elts}
-        ok = u(g.iter) == "grid_successors" and u(sc.elt) == u(g.target) and len(g.ifs) == 1 and cats == {"INVERTER", "EV_CHARGER", "METER"}
+        sc = defs[next(iter(srcs))]
+        if isinstance(sc, ast.Call) and isinstance(sc.func, ast.Name) and sc.func.id in ("set", "frozenset") and len(sc.args) == 1 and not sc.keywords:
+            sc = sc.args[0]
+        ok = isinstance(sc, (ast.SetComp, ast.ListComp, ast.GeneratorExp)) and len(sc.generators) == 1 and not sc.generators[0].is_async \
+            and isinstance(sc.generators[0].target, ast.Name)
+    if ok:
+        g = sc.generators[0]  # type: ignore[union-attr]
+        v = g.target.id  # type: ignore[union-attr]
+        cond = g.ifs[0] if len(g.ifs) == 1 else ast.BoolOp(op=ast.And(), values=list(g.ifs))
+        ok = bool(g.ifs) and txt(cx.value(gp, defs, g.iter)) == "self._get_grid_component_successors()" and txt(sc.elt) == v \
+            and category_set(bcanon(cx.norm(deref(cond, defs, containers=True))), v) == {"INVERTER", "EV_CHARGER", "METER"}  # type: ignore[union-attr]
     run.check(ok, "C12.EMIT", gp.qual, "grid power = Σ over every grid successor that is a meter / inverter / EV charger",
               "grid power does not range over every measurable grid successor", node=gp.node, file=gp.file)
     # consumer with grid meter: the subtracted set is found from *every* grid meter
-    gw = prog.func(targets[1])
-    t = u(gw.node).replace(" ", "").replace("\n", "")
-    ok = "forgrid_meteringrid_meters:non_consumer_components=non_consumer_components.union(component_graph.dfs(grid_meter,set(),non_consumer_component))" in t
-    run.check(ok, "C12.EMIT", gw.qual, "devices to subtract are searched below every grid meter",
+    gw = cx.prep(prog.func(targets[1]))
+    run.check(subtracted_set_ok(cx, gw, sources.get(targets[1].split(":")[1], [])), "C12.EMIT", gw.qual,
+              "devices to subtract are searched below every grid meter",
               "devices below some grid meter are not subtracted from the consumer power", node=gw.node, file=gw.file)
-    cg = prog.func(f"{GEN}._consumer_power_formula:ConsumerPowerFormula.generate")
-    t = u(cg.node).replace(" ", "").replace("\n", "")
-    ok = "ifself._are_grid_meters(grid_successors):returnself._gen_with_grid_meter(builder,grid_successors)returnself._gen_without_grid_meter(builder,self._get_grid_component())" in t
-    run.check(ok, "C12.EMIT", cg.qual, "grid meters present -> meters minus devices; else sum of consumers",
-              "the consumer formula variant is not selected by `_are_grid_meters`", node=cg.node, file=cg.file)
+    cgen = prog.func(f"{GEN}._consumer_power_formula:ConsumerPowerFormula.generate")
+    e = cx.norm(cx.folder.ret_expr(cgen), pmap(cgen))
+    ok = False
+    if isinstance(e, ast.IfExp):
+        c = bcanon(e.test)
+        a, b = e.body, e.orelse
+        if isinstance(c, tuple) and c[0] == "not":
+            c, a, b = c[1], b, a
+        gs = "self._get_grid_component_successors()"
+        ok = c == ("truthy", f"self._are_grid_meters({gs})") \
+            and isinstance(a, ast.Call) and method_call(a, "self", "_gen_with_grid_meter") and not a.keywords and len(a.args) == 2 \
+            and isinstance(b, ast.Call) and method_call(b, "self", "_gen_without_grid_meter") and not b.keywords and len(b.args) == 2
+        if ok:
+            ok = txt(a.args[1]) == gs and txt(b.args[1]) == "self._get_grid_component()" and txt(a.args[0]) == txt(b.args[0]) \
+                and isinstance(a.args[0], ast.Call) and method_call(a.args[0], "self", "_get_builder")
+    run.check(ok, "C12.EMIT", cgen.qual, "grid meters present -> meters minus devices; else sum of consumers",
+              "the consumer formula variant is not selected by `_are_grid_meters`", node=cgen.node, file=cgen.file)
+
+
+def category_set(c: Any, var: str) -> set[str] | None:
+    """Categories accepted by a canonical condition on `<var>.category` (membership or equalities)."""
+    subj = f"{var}.category"
+    alts = list(c[1]) if isinstance(c, tuple) and c and c[0] == "or" else [c]
+    out: set[str] = set()
+    for a in alts:
+        if isinstance(a, tuple) and a[0] == "in" and a[1] == subj and isinstance(a[2], frozenset):
+            out |= {m.split(".")[-1] for m in a[2] if m.startswith("ComponentCategory.")}
+            if any(not m.startswith("ComponentCategory.") for m in a[2]):
+                return None
+        elif isinstance(a, tuple) and a[0] == "==" and subj in a[1] and len(a[1]) == 2:
+            (other,) = set(a[1]) - {subj}
+            if not other.startswith("ComponentCategory."):
+                return None
+            out.add(other.split(".")[-1])
+        else:
+            return None
+    return out
+
+
+def subtracted_set_ok(cx: Ctx, fn: FuncInfo, summed: list[tuple[str, str]]) -> bool:
+    """_gen_with_grid_meter: one loop over *the grid meters parameter* unions, on every iteration, the result of
+    `GRAPH.dfs(<that grid meter>, <fresh set>, <the non-consumer predicate>)` into a set that starts empty, and
+    that set is what every `-` loop ranges over."""
+    if len(fn.params) != 3:
+        return False
+    gm = fn.params[2]
+    cfg = CFG(fn.node, fn.file)
+    defs = single_defs(fn.node)
+    val = lambda e: cx.value(fn, defs, e)  # noqa: E731
+    calls = cx.graph_dfs_calls(fn, defs)
+    if len(calls) != 1:
+        return False
+    args = call_args(calls[0], cx.dfs_params)
+    if args is None or set(args) != set(cx.dfs_params):
+        return False
+    heads = [n for n in cfg.nodes if n.kind == "for" and isinstance(n.ast.target, ast.Name) and txt(val(n.ast.iter)) == gm  # type: ignore[union-attr]
+             and any(x is calls[0] for x in ast.walk(n.ast))]  # type: ignore[arg-type]
+    if len(heads) != 1:
+        return False
+    h, g = heads[0].id, heads[0].ast.target.id  # type: ignore[union-attr]
+    if txt(val(args[cx.dfs_params[0]])) != g or not is_empty_set(val(args[cx.dfs_params[1]])):
+        return False
+    entry = [m for m, lab in cfg.succ[h] if lab == "iter"]
+    body = cfg.reachable(entry, avoid=[h], edge_ok=normal)
+    rtxt = txt(val(calls[0]))
+
+    def accumulates(s: ast.AST) -> str | None:
+        if isinstance(s, ast.Expr) and isinstance(s.value, ast.Call) and isinstance(s.value.func, ast.Attribute) \
+                and s.value.func.attr == "update" and isinstance(s.value.func.value, ast.Name) \
+                and [txt(val(a)) for a in s.value.args] == [rtxt] and not s.value.keywords:
+            return s.value.func.value.id
+        if isinstance(s, ast.AugAssign) and isinstance(s.target, ast.Name) and isinstance(s.op, ast.BitOr) and txt(val(s.value)) == rtxt:
+            return s.target.id
+        if isinstance(s, ast.Assign) and len(s.targets) == 1 and isinstance(s.targets[0], ast.Name):
+            a, v = s.targets[0].id, s.value
+            if isinstance(v, ast.BinOp) and isinstance(v.op, ast.BitOr) and {txt(val(v.left)), txt(val(v.right))} == {a, rtxt}:
+                return a
+            if isinstance(v, ast.Call) and isinstance(v.func, ast.Attribute) and v.func.attr == "union" and len(v.args) == 1 \
+                    and not v.keywords and {txt(val(v.func.value)), txt(val(v.args[0]))} == {a, rtxt}:
+                return a
+        return None
+
+    accs = {x: accumulates(cfg.nodes[x].ast) for x in body if cfg.nodes[x].kind == "stmt" and cfg.nodes[x].ast is not None}  # type: ignore[arg-type]
+    accs = {x: a for x, a in accs.items() if a is not None}
+    if len(accs) != 1:
+        return False
+    (an, acc), = accs.items()
+    if any(cfg.nodes[x].kind in ("test", "while", "for") or isinstance(cfg.nodes[x].ast, (ast.Break, ast.Continue, ast.Return)) for x in body):
+        return False
+    if not all(e == an or cfg.path(e, [h], avoid=[an], edge_ok=normal) is None for e in entry):
+        return False
+    init = [d for d in reaching_defs(cfg, h, acc) if d not in body]
+    if not init or not all(isinstance(cfg.nodes[d].ast, (ast.Assign, ast.AnnAssign)) and is_empty_set(cfg.nodes[d].ast.value) for d in init):  # type: ignore[union-attr]
+        return False
+    minus = [s for sign, s in summed if sign == "-"]
+    return bool(minus) and all(s == acc for s in minus)
 
 
 CG_MOD = "microgrid.component_graph"
@@ -353,10 +793,11 @@ CONTROLS = [
 
 
 def run_rules(run: Run, prog: Program) -> None:
-    check_part(run, prog)
-    check_meter(run, prog)
-    check_dfs(run, prog)
-    check_emit(run, prog)
+    cx = Ctx(prog)
+    check_part(run, cx)
+    check_meter(run, cx)
+    check_dfs(run, cx)
+    check_emit(run, cx)
 
 
 def check(run: Run, prog: Program, tier: str) -> str:
@@ -380,7 +821,9 @@ def check(run: Run, prog: Program, tier: str) -> str:
                   "structure above is decided.")
     run.assume("frozen table: battery and EV-charger formulas take their component ids from the pools, so only "
                "pv and chp are searched by the producer formula")
-    return ("Table/sibling extractors: the chain-kind sets named by sibling predicates, the conjunct sets of "
-            "the four meter predicates (normalised with canonical boolean forms) and the emission grammar of "
-            "every sum loop are extracted from the AST and compared; dfs is checked with CFG path rules. This "
-            "decides necessary structural conditions only, not the balance identity over all graphs.")
+    return ("Table/sibling extractors: the chain-kind sets named by sibling predicates and the conjunct sets of "
+            "the four meter predicates are read from each predicate's symbolic return expression (locals "
+            "substituted, helpers expanded, canonical boolean form) and compared; dfs, the primary/fallback "
+            "pairing and the emission grammar of every sum loop are checked with CFG path rules whose roles "
+            "are bound by dataflow. This decides necessary structural conditions only, not the balance "
+            "identity over all graphs.")
